@@ -363,13 +363,13 @@ func c02Oracle(in c02In) probe.Outcome {
 }
 
 var c02Tamper = probe.Define("C02", "tamper", func(t *rapid.T) c02In {
-	in := c02In{protIn: genProt(t, gen.Opts{MaxPayloads: 3, NoBig: true, MaxChain: 1200})}
+	in := c02In{protIn: genProt(t, gen.Opts{MaxPayloads: 3, NoBig: true, MaxChain: 800})}
 	in.Producer = rapid.SampledFrom([]string{"lib", "ref"}).Draw(t, "producer")
 	if len(in.Entropy) == 0 {
 		in.Entropy = gen.Fill(t, "entropy", 24)
 	}
 	in.IV = gen.Fill(t, "iv", 16)
-	in.Msg2 = gen.Message(t, gen.Opts{MaxPayloads: 3, NoBig: true, MaxChain: 1200})
+	in.Msg2 = gen.Message(t, gen.Opts{MaxPayloads: 3, NoBig: true, MaxChain: 800})
 	if in.Msg2.Header.MsgID == in.Msg.Header.MsgID {
 		in.Msg2.Header.MsgID++
 	}
@@ -392,7 +392,7 @@ var c02Tamper = probe.Define("C02", "tamper", func(t *rapid.T) c02In {
 		{0, 0, 0, 4},             // looks like an empty skippable payload
 		{0, 0, 0, 8, 1, 2, 3, 4}, // a skippable payload with a body
 	}
-	in.AllFlips = model.ChainSize(in.Msg.Payloads) <= 500
+	in.AllFlips = model.ChainSize(in.Msg.Payloads) <= 300
 	in.Warm = rapid.Bool().Draw(t, "warm")
 	return in
 }, c02Oracle)
